@@ -102,6 +102,16 @@ pub fn gen_pcm(kind: &str, rng: &mut Rng, channels: usize, bps: u32, frames: usi
                     _ => { let step = (hi / 64).max(1); walk[c] = (walk[c] + rng.range(-step, step)).clamp(lo, hi); walk[c] }
                 },
                 "noise" => rng.range(lo, hi),
+                // anti-correlated channels reaching both rails: odd channels are the complement of the channel before them,
+                // so the side channel (left - right) spans its whole range, e.g. 2^bps - 1
+                "anti" => {
+                    if c % 2 == 0 {
+                        walk[c] = match rng.below(4) { 0 => hi, 1 => lo, _ => rng.range(lo, hi) };
+                        walk[c]
+                    } else {
+                        !walk[c - 1]
+                    }
+                }
                 // residual magnitude varies strongly inside a block: loudness doubles every few samples (period 16 / 64)
                 "fade" | "fade64" => {
                     let period = if kind == "fade" { 16 } else { 64 };
